@@ -4,3 +4,4 @@ INVARIANT NoCrashK
 INVARIANT LayoutOK
 INVARIANT TrajOK
 INVARIANT TrajBackOK
+INVARIANT PostselectOK
